@@ -95,6 +95,10 @@ def worker(task):
                 V("C19", _sig(m, tid, "serialize", "serialize-throws:%s" % exc_class(e), "value"), dict(case, observed=_brief(e)))
                 continue
             res["nontrivial"].add(common.h(d["name"], tid, want))
+            if "C17" in props and e.get("hex") and len(e["hex"]) == len(want) and hazard(m, tid, "serialize") == "plain":
+                # C17 judges the implementation's own bytes under both byte orders (types that run through a
+                # recorded serializer defect are left out)
+                res.setdefault("c17", []).append((tid, json.dumps(v, sort_keys=True), e["hex"], [(s.off, s.len) for s in enc.segs]))
             if e.get("hex") != want:
                 off = rustwl._first_diff(bytes.fromhex(e.get("hex", "")), bytes(enc.data))
                 V("C19", _sig(m, tid, "serialize", "wrong-bytes", rustwl._locate(m, enc, off)), dict(case, observed=e.get("hex"), first_diff=off))
@@ -108,7 +112,7 @@ def worker(task):
             if len(res["samples"]) < 1:
                 res["samples"].append({"desc": d["name"], "type": tid, "value": v, "java_hex": e["hex"]})
         # ---- parse side
-        for tid in types:
+        for tid in (types if not task.get("serialize_only") else []):
             res["types"] += 1
             for c in rustwl.type_constructs(m, tid):
                 res["constructs"][c] = res["constructs"].get(c, 0) + 1
